@@ -32,6 +32,9 @@ type World struct {
 	modsets map[*ssa.Function]*modSet
 	locks   *lockAnalysis
 	Inlined []string // calls of new helpers expanded by normalize()
+	InlinedFuncs map[*ssa.Function][]*ssa.Function // caller → new helpers expanded into it (the helpers themselves stay analysable as units)
+	SplitReturns int // functions whose merged return was written out again
+	Adopted []string // new go/defer/function-value targets made anonymous functions of their only user
 }
 
 // brokenf ends the run with exit 2: the checker could not decide. It never prints a
@@ -344,6 +347,24 @@ func (w *World) teardownBody(prop string) *ssa.Function {
 		}
 	})
 	if body != nil && n == 1 {
+		// Do(func() { pConn.shutdownConn() }): a literal that only forwards to a repo function is that function
+		for k := 0; k < 3; k++ {
+			if body.Parent() == nil || len(body.Blocks) != 1 {
+				break
+			}
+			var only *ssa.Function
+			calls := 0
+			for _, i := range body.Blocks[0].Instrs {
+				if c, ok := i.(ssa.CallInstruction); ok {
+					calls++
+					only = staticCallee(c)
+				}
+			}
+			if calls != 1 || only == nil || !w.isRepoFunc(only) {
+				break
+			}
+			body = only
+		}
 		return body
 	}
 	return sh
